@@ -276,6 +276,9 @@ pub fn run(ctx: &Ctx) -> Report {
     }
     total.merge(st);
     total.exhaustive_parts.push("every unsupported test, action, format directive (first/middle/last position, after \\c) and the positional option, alone, negated, in dead branches and nested".into());
+    // interaction triples: three leaf kinds (supported and unsupported) under every operator skeleton
+    let tr = crate::combo::run_triples(ctx.seed, &crate::combo::all_kinds(), ctx.tier.pick(32, 2), judge, case_json);
+    total.merge(tr);
     let cases = ctx.tier.pick(300_000u32, 3_000_000u32);
     let rnd = run_shards(16, |shard| {
         let mut st = Stats::new();
